@@ -9,15 +9,44 @@ ARITY = {"new": 2, "after": 2, "before": 2, "add": 3, "nadd": 3, "ins": 3, "nins
          "fclone": 2, "flclone": 2, "ftclone": 2, "loc": 3, "walk": 4,
          "zadd": 3, "zaddn": 3, "zins": 3, "zmove": 1, "zpos": 1, "zunlink": 0, "zdestroy": 0, "zrelink": 0,
          "zclone": 0, "zlclone": 0, "ztclone": 0, "ztrav": 2, "ztravh": 1, "zloc": 1, "zfind": 0, "znext": 0,
-         "zsame": 1, "zsub": 1, "parse": 4, "zparse": 1}
+         "zsame": 1, "zsub": 1, "parse": 4, "zparse": 1, "snew": 2}
 NAMES = ["-", "a", "b", "c"]
 # L: a text of 21 characters (needs an allocation of its own in a default node and in a clone); B: a binary identifier;
 # M: a text of 29 characters (allocation of its own in a default node; the node of a clone is made big enough)
 NAMES_X = ["-", "a", "b", "c", "L", "M"]
+# T<n>: a text of n characters.  mpt_node_new makes nodes of 64, 128 or 256 bytes, i.e. with room for 20, 84 or 212 bytes
+# of identifier data (terminator included): n = 19, 83, 211 fill a node exactly (_len == _max, the last length kept
+# inside the node), one more needs an allocation of its own (_len > _max).  `new` makes the default node and sets the
+# name, `snew` sizes the node for the name the way node_append.c does, a clone sizes it for the source's _len.
+CAPS = (20, 84, 212)
+T_EDGE = [18, 19, 20, 21, 23, 24, 25, 82, 83, 84, 85, 87, 88, 89, 210, 211, 212, 213, 215, 216, 217, 230]
+T_FILL = [19, 83, 211]
+
+
+def tname_len(nm):
+    """stored length (_len) of the text name T<n>, None for the other names"""
+    return int(nm[1:]) + 1 if nm[0] == "T" and nm[1:].isdigit() else None
+
+
+def node_room(ln):
+    """ident._max of the node mpt_node_new(ln) makes (node_new.c)"""
+    need, size = ln + 40, 64
+    if 64 < need <= 256:
+        while size < need:
+            size *= 2
+    return size - 44
+
+
+def clone_allocs(nm):
+    """mpt_identifier_copy into the node mpt_node_clone made has to allocate (NodeModel.v: name_alloc)"""
+    if nm == "L":
+        return True
+    ln = tname_len(nm)
+    return ln is not None and ln > node_room(ln)
 QUERIES = ["ta", "tb", "tc", "tL", "tM", "t-", "pa", "ua", "xa", "Ba", "Bb", "U0", "E", "p6", "pu", "pn"]
 ORDERS = ["pre", "in", "post", "level"]
 # positions of a case line that are numbers but not node indices (for the renumbering shrinker)
-NOT_A_NODE = {"new": (1, 2), "add": (2,), "nadd": (2,), "ins": (2,), "nins": (2,), "trav": (1, 2), "find": (2, 3), "next": (2,),
+NOT_A_NODE = {"new": (1, 2), "snew": (1, 2), "add": (2,), "nadd": (2,), "ins": (2,), "nins": (2,), "trav": (1, 2), "find": (2, 3), "next": (2,),
               "fclone": (1,), "flclone": (1,), "ftclone": (1,), "loc": (2, 3), "walk": (1, 2, 3), "zadd": (1, 2),
               "zaddn": (1, 3), "zins": (1, 3), "zpos": (1,), "ztrav": (1, 2), "zloc": (1,), "zsame": (1,), "zsub": (1,),
               "parse": (2, 3, 4)}
@@ -37,7 +66,7 @@ def allowed(case):
     t = case.split()
     if not PATCHED_CLONE_IDENT_FAIL and any(x in ("fclone", "flclone", "ftclone") for x in t):
         for i in range(len(t) - 1):
-            if t[i] == "new" and t[i + 1] == "L":
+            if t[i] in ("new", "snew") and clone_allocs(t[i + 1]):
                 return False
     if not PATCHED_LOCATE_PTR and "pn" in t:
         return False
@@ -175,6 +204,7 @@ class Tracker:
         self.tops = []     # top-level sibling lists
         self.count = 0
         self.labels = set()
+        self.room = {}     # id -> bytes of identifier data the node has room for (ident._max)
 
     # -- helpers
     def alive(self, x):
@@ -216,10 +246,11 @@ class Tracker:
     def can_link(self, p, x):
         return self.alive(p) and self.unlinked(x) and not self.anc_or_eq(x, p)
 
-    def fresh(self, nm, v=0):
+    def fresh(self, nm, v=0, room=20):
         i = self.count
         self.count += 1
         self.name[i] = nm
+        self.room[i] = room
         self.val[i] = v
         self.par[i] = None
         self.kids[i] = []
@@ -265,6 +296,10 @@ class Tracker:
     def free(self, x):
         for k in list(self.kids[x]):
             self.free(k)
+        ln = tname_len(self.name[x])
+        if ln is not None:
+            r = self.room.get(x, 20)
+            self.labels.add("released:name-%s" % ("fills-the-node" if ln == r else "inside-the-node" if ln < r else "allocated"))
         del self.name[x], self.par[x], self.kids[x], self.val[x]
 
     def clone(self, srcs, k, deep):
@@ -287,7 +322,7 @@ class Tracker:
             st["n"] += 1
             me = len(plan)
             plan.append((self.name[x], self.val[x], par))
-            if self.name[x] == "L" and tick():
+            if clone_allocs(self.name[x]) and tick():
                 return False
             if deep:
                 for c in self.kids[x]:
@@ -306,7 +341,7 @@ class Tracker:
         ids = []
         top = []
         for nm, v, par in plan:
-            c = self.fresh(nm, v)
+            c = self.fresh(nm, v, node_room(tname_len(nm) or 0))
             ids.append(c)
             if par is None:
                 top.append(c)
@@ -345,10 +380,15 @@ class Tracker:
     def apply(self, o):
         op = o[0]
         I = lambda s: -1 if s == "-" else int(s)
-        if op == "new":
-            self.tops.append([self.fresh(o[1], int(o[2]))])
+        if op in ("new", "snew"):
+            self.tops.append([self.fresh(o[1], int(o[2]), node_room((tname_len(o[1]) or 0) if op == "snew" else 0))])
             if o[1] in ("L", "B", "M"):
                 self.labels.add("name:" + o[1])
+            ln = tname_len(o[1])
+            if ln is not None:
+                room = node_room(ln if op == "snew" else 0)
+                self.labels.add("name-length:%s:%s" % (op, "fills-the-node" if ln == room else "one-less" if ln == room - 1
+                                                       else "one-more" if ln == room + 1 else "inside" if ln < room else "outside"))
             if o[2] == "3":
                 self.labels.add("value:unclonable")
             return True
@@ -567,7 +607,10 @@ class C14(DiffProperty):
     harness_env = vcheck.ASAN_LEAK_ENV
     rule = ("a case is a history (<= 20 operations + final clean-up) over a population of <= 8 created nodes (names from "
             "{unnamed,a,b,c, L = a text that does not fit the node, M = a text a sized node has room for, B = a binary "
-            "identifier}, values from {none,1,2, 3 = a value that refuses to be cloned}) plus whatever cloning adds: new, "
+            "identifier, T<n> = a text of n characters for the 22 lengths around what a node of 64/128/256 bytes has room "
+            "for: 18..21, 23..25, 82..85, 87..89, 210..213, 215..217, 230 — one less, exactly filling (19/83/211), one more "
+            "= allocated; made in a default node (new), in a node sized for the name as node_append.c does (snew) and in "
+            "the node a clone gets}, values from {none,1,2, 3 = a value that refuses to be cloned}) plus whatever cloning adds: new, "
             "gnode_after/before, gnode_add/node_add and gnode_insert/node_insert at positions {0,1,n,-n} (by position and by "
             "name), unlink, node_move of a child list or a local list into a list with overlapping names, node/list/tree "
             "clone (depth >= 2) also with the k-th allocation of the call failing (malloc seam) or an unclonable value at "
@@ -593,7 +636,11 @@ class C14(DiffProperty):
                 "scratch node; root without children -> root takes the list and the re-parent loop (the model of "
                 "gnode_swap(scratch, root): the same stores plus one into the dying scratch cell); both have children -> "
                 "mpt_node_move(&root->children, list), mpt_node_clear(root), take the list; nothing parsed -> root untouched; an "
-                "identifier is modelled as a name code with equality (the harness uses 7 identifiers of 4 kinds; a query "
+                "identifier is modelled as a name code with equality (the harness uses 7 identifiers of 4 kinds plus the "
+                "texts T<n> of n characters, code 100 + n, for which the model computes from node_new.c's sizes whether the "
+                "copy in a clone needs an allocation of its own; where the bytes of a name live — inside the node up to "
+                "_len == _max, allocated beyond — is not modelled: the harness runs every length around the three node "
+                "sizes through new/snew/clone and release under ASan/LSan; a query "
                 "of mpt_node_locate is translated to the code of the identifier it denotes by a table in the driver, the "
                 "same table as actual arguments is in the harness); allocation failure is modelled for the clone functions "
                 "(an oracle names the malloc of the call that fails), not for mpt_node_new/mpt_identifier_set called "
@@ -639,7 +686,9 @@ class C14(DiffProperty):
                   "under ASan/UBSan/LSan with a full raw-link dump and an independent well-formedness verdict after every "
                   "operation")
     level_note = ("Trusted: Coq kernel; hand transcription of mptcore/node/*.c (validated by the correspondence run, not "
-                  "verified); identifiers are modelled as name codes with equality (7 identifiers of 4 kinds in the runs; the "
+                  "verified); identifiers are modelled as name codes with equality (7 identifiers of 4 kinds and texts of 22 "
+                  "lengths around the capacities of the three node sizes in the runs; the storage of the name bytes, inside "
+                  "the node or allocated, is exercised on every run, not modelled; the "
                   "translation of mpt_node_locate's (ident,len,charset) into the code it denotes is a table in driver and "
                   "harness); the configuration parser and node_append.c are not modelled (C08/C09): a text is represented by the "
                   "tree it denotes, delivered as mpt_node_new + mpt_gnode_insert calls below a scratch cell, and the tail of "
@@ -726,7 +775,7 @@ class C14(DiffProperty):
         for k in range(len(body)):
             rest = body[:k] + body[k + 1:]
             yield self.join([], rest + tail)
-            if body[k][0] == "new":
+            if body[k][0] in ("new", "snew"):
                 # drop the node and renumber the references behind it
                 tr = Tracker()
                 for o in body[:k]:
@@ -790,8 +839,12 @@ class C14(DiffProperty):
             r = rng.random()
             alive = list(tr.name)
             if not alive or (created < maxnew and r < (0.5 if created < 4 else 0.12)):
-                emit(["new", rng.choice(NAMES if rng.random() < 0.3 else ["a", "b", "c", "a", "b", "a", "b", "L", "B", "M"]),
-                      rng.choice([0, 0, 1, 2, 0, 0, 1, 2, 3])])
+                if rng.random() < 0.12:
+                    # a name of a length around what a node has room for
+                    emit([rng.choice(["new", "snew"]), "T%d" % rng.choice(T_EDGE + T_FILL * 4), rng.choice([0, 0, 1, 2])])
+                else:
+                    emit(["new", rng.choice(NAMES if rng.random() < 0.3 else ["a", "b", "c", "a", "b", "a", "b", "L", "B", "M"]),
+                          rng.choice([0, 0, 1, 2, 0, 0, 1, 2, 3])])
                 created += 1
                 # usually link the new node at once
                 x = tr.count - 1
@@ -876,6 +929,36 @@ class C14(DiffProperty):
             elif kind == "trav":
                 emit(["trav", rng.choice(["pre", "in", "post"]), rng.choice([1, 2, 3, 3]), rng.choice(alive)])
         return " ".join(" ".join(o) for o in ops + [["end"]])
+
+    def name_length_sweep(self):
+        """directed: names of every length around what a node has room for (64/128/256-byte nodes: 20/84/212 bytes
+        with the terminator), in a default node (`new`), a node sized for the name (`snew`, as the parser makes it)
+        and the node a clone gets; each is released by destroy, by clear of the parent, as part of a cloned tree, by
+        the clean-up of a clone that fails, and found again by name"""
+        cases = []
+        for n in T_EDGE:
+            t = "T%d" % n
+            for mk in ("new", "snew"):
+                cases.append("%s %s 0 end" % (mk, t))
+                cases.append("%s %s 1 destroy 0 end" % (mk, t))
+                cases.append("%s %s 0 clone 0 destroy 1 destroy 0 end" % (mk, t))
+                # root c with the children T<n> (with a child of the same name) and a
+                tree = "new c 0 %s %s 1 %s %s 0 new a 2 ins 0 0 1 ins 1 0 2 ins 0 0 3" % (mk, t, mk, t)   # 0(1T(2T),3a)
+                cases.append(tree + " clear 0 end")
+                cases.append(tree + " clear 1 end")
+                cases.append(tree + " unlink 1 destroy 1 end")
+                cases.append(tree + " tclone 0 unlink 5 destroy 5 clear 4 destroy 4 end")
+                cases.append(tree + " lclone 1 clear 0 end")
+                cases.append(tree + " find 0 %s 1 next 1 %s find 1 %s 0 find 0 T%d 1 end" % (t, t, t, n + 1))
+                cases.append(tree + " new %s 0 nins 0 0 4 %s %s 0 nins 0 -1 5 end" % (t, mk, t))
+                if mk == "new":
+                    for k in range(1, 8):
+                        cases.append(tree + " ftclone %d 0 end" % k)
+                    for k in (2, 3, 4):
+                        cases.append(tree + " flclone %d 1 tclone 0 end" % k)
+                # merge: the node with the long name is superseded and released by the clear
+                cases.append(tree + " new c 0 %s %s 0 ins 4 0 5 move 0 5 clear 0 end" % (mk, t))
+        return cases
 
     def gen_null(self, rng, alive):
         x = rng.choice(alive)
@@ -1210,6 +1293,7 @@ class C14(DiffProperty):
         for i in range(n // 4):
             cases.append(self.gen_level(rng))
         cases += self.parse_sweep()
+        cases += self.name_length_sweep()
         for i in range(n // 3):
             cases.append(self.gen_parse(rng))
         return [c for c in cases if allowed(c)]
